@@ -48,7 +48,7 @@ fn main() {
         }
         "c08" => {
             c08::set_canon_nan(cfg!(miri) || args.flag("canon-nan"));
-            let s = c08::run(seed, args.usize("runs", 20000), workers);
+            let s = c08::run(seed, args.usize("runs", 20000), workers, !args.flag("no-grid"));
             report::write_out(out, &s.to_json("C08", seed));
         }
         "c17" => {
